@@ -11,6 +11,7 @@ STYLES = {
     "review": "This time make the kind of mistake that survives code review: a plausible-looking local rewrite of 2-8 lines (an early return added for a 'trivial' case that is not trivial, a loop restructured with a subtly different bound or starting point, a helper call replaced by an 'equivalent' one that differs at a boundary, a condition simplified using an assumption that does not always hold, two statements swapped whose order matters, a value cached before it is updated, an overload delegating to the wrong sibling).",
     "boundary": "This time aim at a boundary that the current code handles explicitly or implicitly: an empty range or string, a single element, size() == capacity(), a count of 0 or a negative count, pos == size() or pos == npos, the most negative value of a signed type, the widest or narrowest type argument, rank 0 or an extent of 0, equivalent / equal elements, arguments that alias the object itself (self-assignment, inserting a container's own element or a view into itself). The change must read like a simplification: two special cases unified, a redundant-looking check or branch dropped, an `<=` tidied to `<`, a loop started or stopped one position differently because 'the other end handles it', a clamp replaced by a precondition or the other way round.",
     "feature": "This time the change is dressed as a legitimate contribution: a small performance improvement, a generalisation to more types, a de-duplication that routes one function through another, a clean-up that replaces hand-written code by a library call (or the other way round), a 'fix' for a compiler warning (a cast, a changed integer type, an added or removed const / noexcept / constexpr / explicit, a changed default argument), or support for a corner case that accidentally changes another. The commit message you would write for it must sound reasonable. The mistake must be in semantics, not in style: a type that is too narrow or has the wrong signedness, an argument order, a changed evaluation order, a wrong sibling, an inclusive/exclusive mix-up, a forgotten state update, a condition that is right for the common instantiation and wrong for another.",
+    "types": "This time the change must be right for the instantiations and call sequences that the unit tests use and wrong for another one that the property quantifies over: a different element / character / integer type (a narrower or wider one, signed instead of unsigned, a non-trivial, move-only or throwing-free user type, a type with a user-defined comparison or conversion), a different capacity or extent (0, 1, a non-power-of-two), a different value category of the argument (lvalue vs rvalue, const vs non-const), a different overload of the same name, or a different ORDER of otherwise tested operations (state left behind by one member function that a later one relies on). Typical shapes: a `static_cast` to a fixed type where the template parameter was meant, `sizeof` / `numeric_limits` of the wrong type, a `memcpy`/bitwise shortcut applied without the trait that guards it, a `move` where a copy is needed because the source is used again, a member not updated on one branch, a const overload that differs from the non-const one, a helper instantiated with swapped template arguments.",
 }
 
 
